@@ -60,6 +60,11 @@ class Ref:
         return '&%r' % (self.get(),)
 
 
+class RcRef(Ref):
+    """an Rc / Arc allocation: a Ref with identity that survives clone (Rc::ptr_eq, strong sharing)"""
+    __slots__ = ()
+
+
 class RString:
     __slots__ = ('s',)
 
@@ -144,6 +149,7 @@ ENUMS = {'Option': ['None', 'Some'], 'Result': ['Ok', 'Err'], 'ControlFlow': ['C
          'Level': ['__unused0', 'Error', 'Warn', 'Info', 'Debug', 'Trace'], 'LevelFilter': ['Off', 'Error', 'Warn', 'Info', 'Debug', 'Trace']}
 STRUCTS = {}
 UNIT_STRUCTS = set()
+VARIANT_KIND = {}      # (enum, variant) -> 'unit' | 'tuple' | 'struct'
 
 
 def _strip_rust(src):
@@ -217,6 +223,8 @@ def load_source_types(root):
                 if not mm:
                     continue
                 vs.append(mm.group(1))
+                rest = x.strip()[len(mm.group(1)):].lstrip()
+                VARIANT_KIND[(name, mm.group(1))] = 'tuple' if rest.startswith('(') else 'struct' if rest.startswith('{') else 'unit'
                 ms = re.match(r'\s*(\w+)\s*\{(.*)\}\s*$', x, re.S)
                 if ms:
                     fs = [re.match(r'\s*(?:pub(?:\([a-z]+\))? )?(\w+)\s*:', y).group(1) for y in M.split_top(ms.group(2)) if re.match(r'\s*(?:pub(?:\([a-z]+\))? )?(\w+)\s*:', y)]
@@ -535,6 +543,8 @@ class Machine:
         v = as_str(v)
         if isinstance(v, SymVal):
             v = self.concretize(v)
+        if not isinstance(v, str):
+            raise Unsupported('a string was expected, got %r (closure / char-predicate patterns are only modelled for starts_with / ends_with / contains)' % (v,))
         return v
 
     def smap(self, f, *vals):
@@ -639,7 +649,9 @@ class Machine:
         if seg[-1] in UNIT_STRUCTS:
             return Adt(seg[-1], 0, [])
         if len(seg) >= 2 and seg[-2] in ENUMS and seg[-1] in ENUMS[seg[-2]]:
-            return Adt(seg[-2], ENUMS[seg[-2]].index(seg[-1]), [])
+            if VARIANT_KIND.get((seg[-2], seg[-1]), 'unit') == 'unit' and seg[-2] not in ('Option', 'Result') or (seg[-2] == 'Option' and seg[-1] == 'None'):
+                return Adt(seg[-2], ENUMS[seg[-2]].index(seg[-1]), [])
+            return ('item', name)        # a tuple-variant constructor used as a function
         if re.match(r'^\{?alloc\d+', name) or 'Indirect' in name or 'Scalar(' in name:
             raise Unsupported('raw constant ' + name[:60])
         return ('item', name)
@@ -708,8 +720,10 @@ class Machine:
             return self.make_adt(path, args, dest_ty)
         if k == 'struct':
             name = rv[1]
-            if name.startswith('{closure') or name.startswith('{coroutine'):
-                return Adt(re.search(r'\{(?:closure|coroutine)@[^}]*\}', name).group(), 0, [self.operand(fr, o) for _, o in rv[2]])
+            if name.startswith('{coroutine'):
+                return Coro([self.operand(fr, o) for _, o in rv[2]])
+            if name.startswith('{closure'):
+                return Adt(re.search(r'\{closure@[^}]*\}', name).group(), 0, [self.operand(fr, o) for _, o in rv[2]])
             segs = [x for x in strip_generics_path(name).split('::') if x]
             vals = {f: self.operand(fr, o) for f, o in rv[2]}
             if len(segs) >= 2 and segs[-2] in ENUMS:
